@@ -99,7 +99,14 @@ class Ctx:
 
     def go2lean(self, modules):
         """Regenerate AlgoVerif/Gen/<Module>.lean for the listed modules from the current tree."""
-        sel = [m for m in _overlay.go2lean_config() if m["module"] in modules]
+        allm = _overlay.go2lean_config()
+        want = set(modules)
+        for _ in range(5):
+            for m in allm:
+                if m["module"] in want:
+                    want |= set(m.get("uses", []))
+        sel = [m for m in allm if m["module"] in want]
+        sel.sort(key=lambda m: (len(m.get("uses", [])), m["module"]))
         cpath = os.path.join(self.work, "go2lean.json")
         json.dump(sel, open(cpath, "w"))
         with Lock("gen"):
